@@ -583,6 +583,165 @@ func checkC17(p *core.Program, r *core.Report) {
 					"operation %d of the model, %s, cannot be emitted by %s at that point (Go positions still possible: %s): the committed model is not an output of the current source", at, got, core.FuncName(g.Fn), strings.Join(where, ", "))
 			}
 		}
+		// ---- O17.11 instance names at the call sites: the extractor names a gadget instance by the lengths of its slice
+		// fields and its integer fields *at the call*; for every call in the Go definition whose argument lengths are
+		// integer forms in this definition's own dimensions, the instance the model calls must be the one those lengths
+		// give (passing a 31-bit path where the model says VerifyProof_31_30 compiles to the same R1CS but extracts to a
+		// different model)
+		if suffixOK {
+			if gi := ctx.define(g.T, g.Fn.Name()); gi != nil {
+				recvT := gi.Ev.Params[0]
+				fieldDims := map[string][]int{} // inner first
+				for i, f := range g.VarFields {
+					if f.Depth > 0 && i < len(dimsBySuffix) {
+						fieldDims[f.Name] = dimsBySuffix[i]
+					}
+				}
+				var lenOf func(t *tf.Term) (int64, bool)
+				evalForm := func(t *tf.Term) (int64, bool) {
+					c, atoms, coefs := tf.AffParts(t)
+					v := c
+					for i, a := range atoms {
+						switch {
+						case a.K == tf.KCall && strings.HasSuffix(a.Name, "frontend.Compiler).FieldBitLen"):
+							v += coefs[i] * 254
+						case a.K == tf.KLen:
+							n, ok := lenOf(a.Args[0])
+							if !ok {
+								return 0, false
+							}
+							v += coefs[i] * n
+						default:
+							f, ok := fieldOf(a, recvT)
+							if !ok {
+								return 0, false
+							}
+							x, ok := ints[f]
+							if !ok {
+								return 0, false
+							}
+							v += coefs[i] * x
+						}
+					}
+					return v, true
+				}
+				lenOf = func(t *tf.Term) (int64, bool) {
+					t = gi.Ev.Resolve(t)
+					if f, ok := fieldOf(t, recvT); ok {
+						if ds := fieldDims[f]; len(ds) > 0 {
+							return int64(ds[len(ds)-1]), true // outermost dimension
+						}
+						return 0, false
+					}
+					if t.K == tf.KIdx {
+						if f, ok := fieldOf(t.Args[0], recvT); ok {
+							if ds := fieldDims[f]; len(ds) > 1 {
+								return int64(ds[len(ds)-2]), true
+							}
+						}
+						return 0, false
+					}
+					if t.K == tf.KApi && t.Name == "ToBinary" && len(t.Args) == 2 {
+						return evalForm(t.Args[1])
+					}
+					l := tf.Len(t)
+					if l.K == tf.KLen && tf.Eq(l.Args[0], t) {
+						return 0, false
+					}
+					return evalForm(l)
+				}
+				predicted := map[string]map[string]bool{} // callee type -> instance names
+				undecidedT := map[string]bool{}
+				for _, e := range gi.Events {
+					if e.Term.K != tf.KGadget {
+						continue
+					}
+					cg := gadgets[e.Term.Name]
+					if cg == nil {
+						if i := strings.LastIndex(e.Term.Name, "."); i >= 0 {
+							cg = gadgets[e.Term.Name[i+1:]]
+						}
+					}
+					if cg == nil {
+						continue
+					}
+					name := cg.Simple
+					okAll := true
+					for _, f := range cg.VarFields {
+						if f.Depth == 0 {
+							continue
+						}
+						a := e.Term.FieldOf(f.Name)
+						if f.Depth > 1 || a == nil {
+							okAll = false
+							break
+						}
+						n, ok := lenOf(a)
+						if !ok {
+							okAll = false
+							break
+						}
+						name += "_" + strconv.FormatInt(n, 10)
+					}
+					for _, f := range cg.IntFields {
+						a := e.Term.FieldOf(f)
+						if a == nil {
+							okAll = false
+							break
+						}
+						n, ok := evalForm(a)
+						if !ok {
+							okAll = false
+							break
+						}
+						name += "_" + strconv.FormatInt(n, 10)
+					}
+					if !okAll {
+						undecidedT[cg.Simple] = true
+						continue
+					}
+					if predicted[cg.Simple] == nil {
+						predicted[cg.Simple] = map[string]bool{}
+					}
+					predicted[cg.Simple][name] = true
+				}
+				called := map[string]map[string]bool{}
+				for _, st := range d.Body {
+					if st.Kind == "gate" {
+						continue
+					}
+					if cg := resolve(st.Name); cg != nil {
+						if called[cg.Simple] == nil {
+							called[cg.Simple] = map[string]bool{}
+						}
+						called[cg.Simple][st.Name] = true
+					}
+				}
+				var mism []string
+				nInst := 0
+				for T, ps := range predicted {
+					if undecidedT[T] {
+						continue
+					}
+					for nm := range ps {
+						nInst++
+						if !called[T][nm] {
+							var got []string
+							for c := range called[T] {
+								got = append(got, c)
+							}
+							sort.Strings(got)
+							mism = append(mism, fmt.Sprintf("the Go call site instantiates %s but the model calls %v", nm, got))
+						}
+					}
+				}
+				sort.Strings(mism)
+				if nInst > 0 || len(mism) > 0 {
+					r.Count("call-site instance names checked", nInst)
+					r.Check(len(mism) == 0, "O17.11", "def "+d.Name+": instances called", pos, fmt.Sprintf("%d call-site instance name(s) computed from argument lengths match the model's calls", nInst), strings.Join(mism, "; "))
+				}
+			}
+		}
 		// ---- O17.4 widths
 		if len(d.ToBinaryWidths) > 0 && suffixOK {
 			gi := ctx.define(g.T, g.Fn.Name())
